@@ -5,6 +5,8 @@
 package executor
 
 import (
+	"time"
+
 	"github.com/ChainSafe/sygma-relayer/store"
 	"github.com/sygmaprotocol/sygma-core/relayer/proposal"
 )
@@ -28,4 +30,13 @@ func (e *Executor) VerifPropMutexHeld() bool {
 		return false
 	}
 	return true
+}
+
+// VerifSetSigningTimeout sets how long watchExecution waits for the signatures (default 30 min) and
+// returns the previous value: the runner's executions whose signing fails end after this time, as the
+// real ones do after half an hour.
+func VerifSetSigningTimeout(d time.Duration) time.Duration {
+	old := signingTimeout
+	signingTimeout = d
+	return old
 }
